@@ -14,6 +14,8 @@ CONSTANTS
   MaxPush = 2
   QueueBound = 4
   PreEv = 5
+  FlushFaults = TRUE
+  PreTmp = 3
   MaxDumps = 3
   PreDumps = 5
   MaxIds = 1000
